@@ -340,8 +340,9 @@ def handler : Handler := fun op j =>
     let fl : Float → Int := fun p => (Float.floor p).toInt64.toInt
     let cl : Float → Int := fun p => (Float.ceil p).toInt64.toInt
     some (ok (jObj [("ind", jIs (les.map fl)),
-      ("coded", jFs (les.map (x3ToNextCoded cl Float.ofInt w))),
-      ("doc", jFs (les.map (x3ToNextDoc fl Float.ofInt 1.0 w)))]))
+      ("coded", jFs (les.map (x3ToNext fl Float.ofInt 1.0 w))),
+      ("doc", jFs (les.map (x3Overlap fl Float.ofInt 1.0 w))),
+      ("ceil", jFs (les.map (x3ToNextCeil cl Float.ofInt w)))]))
   | "dftinit" => do
     let shape ← fNats? j "shape"
     let axes := fInts? j "axes"
